@@ -177,20 +177,32 @@ def run(chk):
     rng = random.Random(chk.seed)
     items = 4
     NMENU = 44
-    cfg = tlc.cfg(constants={"MaxItems": items, "MenuIdx": set(range(1, NMENU + 1))}, invariants=["Emit", "OrderFree"])
-    r = chk.tlc("GqlSdl", cfg, tags=["BLD"], label="GqlSdl items<=%d" % items, heap="8g")
-    if r.rc != 0:
-        raise tlc.TLCError("GqlSdl invariant violated: %s\n%s" % (r.violated, r.tail))
-    cases = r.tagged("BLD")
-    chk.count("documents", len(cases))
-    rng.shuffle(cases)
+    # the general scope is model-checked in full; the documents are replayed slice by slice (memory): quick = one of 16 slices
+    # chosen by the seed, thorough = all of 4 slices one after the other
+    nsl = 16 if chk.quick else 4
+    slices = [chk.seed % nsl] if chk.quick else list(range(nsl))
     if chk.quick:
-        cases = cases[:20000]
         chk.exhaustive = False
+    for sl in slices:
+        cfg = tlc.cfg(constants={"MaxItems": items, "MenuIdx": set(range(1, NMENU + 1)), "Slice": sl, "NSlices": nsl}, invariants=["Emit", "OrderFree"])
+        r = chk.tlc("GqlSdl", cfg, tags=["BLD"], label="GqlSdl items<=%d slice %d/%d" % (items, sl, nsl), heap="6g")
+        if r.rc != 0:
+            raise tlc.TLCError("GqlSdl invariant violated: %s\n%s" % (r.violated, r.tail))
+        part = r.tagged("BLD")
+        del r
+        chk.count("documents replayed (slice %d/%d)" % (sl, nsl), len(part))
+        if sl != slices[-1]:
+            for out, n in par.pmap(_worker, part):
+                chk.traces += n
+                for k, (what, wit) in out.items():
+                    chk.diverge(k, wit, what)
+            del part
+    cases = part
+    rng.shuffle(cases)
     # focused scopes: few items, more of them per document, always replayed in full
     for name, idx, n in (("split extension blocks", {9, 42, 43, 44}, 5), ("supplied enum / scalar, extended", {5, 8, 14, 37}, 5),
                          ("covariant list fields", {38, 39, 40, 41}, 4), ("interface / input extension fields", {2, 6, 33, 34, 35}, 5)):
-        cfg = tlc.cfg(constants={"MaxItems": n, "MenuIdx": idx}, invariants=["Emit", "OrderFree"])
+        cfg = tlc.cfg(constants={"MaxItems": n, "MenuIdx": idx, "Slice": 0, "NSlices": 1}, invariants=["Emit", "OrderFree"])
         rf = chk.tlc("GqlSdl", cfg, tags=["BLD"], label="GqlSdl focus: %s, items<=%d" % (name, n), heap="4g")
         if rf.rc != 0:
             raise tlc.TLCError("GqlSdl invariant violated (%s): %s\n%s" % (name, rf.violated, rf.tail))
